@@ -249,6 +249,49 @@ theorem continue_visits_the_rest (xs : List Item) (lim : Option Int) (start : In
       · rw [Nat.min_eq_left h3]; simp
       · rw [Nat.min_eq_right (by omega), List.drop_eq_nil_of_le (Nat.le_refl _), List.drop_eq_nil_of_le (by omega)]; simp
 
+/-- a chain of loops `limit: l offset: continue` over one key, each resuming from the previous one -/
+def chainVisits (key : String) (xs : List Item) : StopIndex → List Int → List (List Item)
+  | _, [] => []
+  | m, l :: ls =>
+    match slice m key xs xs.length (some l) none false with
+    | .ok sl => sl.items :: chainVisits key xs sl.stop ls
+    | .error _ => []
+
+/-- **Sequences of loops sharing an `offset: continue` key**: any chain of loops `limit: lᵢ offset:
+continue` over one key visits consecutive segments — together exactly the `Σ max lᵢ 0` items that
+follow the position the chain started from, each once, in order. -/
+theorem continue_chain (key : String) (xs : List Item) (ls : List Int) (m : StopIndex) (h0 : 0 ≤ m.get key) :
+    (chainVisits key xs m ls).flatten = (xs.drop (m.get key).toNat).take ((ls.map Int.toNat).sum) := by
+  induction ls generalizing m with
+  | nil => simp [chainVisits]
+  | cons l ls ih =>
+    obtain ⟨s1, _, h1, hstop, _, _⟩ := continue_offset m key xs (some l) none false none false
+    obtain ⟨s1', h1', hi, _⟩ := slice_visits_spec m key xs (some l) none false
+    rw [h1] at h1'; cases h1'
+    simp only [chainVisits, h1, List.flatten_cons, List.map_cons, List.sum_cons]
+    have hstart : startOf m key none = m.get key := rfl
+    rw [hstart] at hstop hi
+    simp only [Bool.false_eq_true, if_false] at hi
+    have hspec : specVisited xs (some l) (m.get key) = (xs.drop (m.get key).toNat).take l.toNat := by
+      simp only [specVisited]
+      rw [List.drop_take]
+      congr 1; omega
+    have hlen : (specVisited xs (some l) (m.get key)).length = min l.toNat (xs.length - (m.get key).toNat) := by
+      rw [hspec]; simp [List.length_take, List.length_drop]
+    have hpos : 0 ≤ s1.stop.get key := by rw [hstop]; simp only [contPos]; omega
+    rw [ih s1.stop hpos, hi, hspec, hstop]
+    simp only [contPos, hlen]
+    by_cases hfit : (m.get key).toNat + l.toNat ≤ xs.length
+    · have : (min (max (m.get key) 0) (xs.length : Int) + ((min l.toNat (xs.length - (m.get key).toNat) : Nat) : Int)).toNat
+          = (m.get key).toNat + l.toNat := by omega
+      rw [this]
+      exact take_drop_append xs _ _ _
+    · have e1 : (min (max (m.get key) 0) (xs.length : Int) + ((min l.toNat (xs.length - (m.get key).toNat) : Nat) : Int)).toNat
+          ≥ xs.length := by omega
+      rw [List.drop_eq_nil_of_le e1, List.take_nil, List.append_nil]
+      rw [List.take_of_length_le (by simp only [List.length_drop]; omega),
+          List.take_of_length_le (by simp only [List.length_drop]; omega)]
+
 /-- **Loops over a different `identifier-iterable` key do not disturb a continue position.** -/
 theorem stopindex_frame (m : StopIndex) (key key2 : String) (xs : List Item) (n : Nat)
     (limit : Option Int) (offset : Option (Option Int)) (reversed : Bool) (sl : Sliced)
@@ -383,6 +426,62 @@ theorem tablerow_default_cols (xs : List Item) (k : Nat) (hk : k < xs.length) :
       · exact hk2
       · rw [Nat.mod_eq_of_lt (by omega)] at h; omega
     · intro h; rw [h]; exact Nat.mod_self _
+
+/-- **The row/column structure of the rendered table**: a `tablerow` whose body leaves the continue
+positions alone renders, per visited item in order, one `<td class="colC">…</td>` cell followed by a
+row separator exactly when the drop says the column is the last of its row and the item is not the
+last one (`row_separator_iff` says when that is). -/
+theorem tablerow_structure (o : RowState → Item → String) (m : StopIndex) (s : RowState) (xs : List Item) (out : String) :
+    iterRow (fun m' s' x => .ok (m', o s' x, .normal)) m s xs out
+      = .ok (m, out ++ joinStr ((tableRows s xs).map (cellHtml o))) := by
+  induction xs generalizing s out with
+  | nil =>
+    have : joinStr [] = "" := rfl
+    simp only [iterRow, tableRows, List.map_nil, this, String.append_empty]
+  | cons x xs ih =>
+    have hs : Signal.normal ≠ Signal.break_ := by intro h; cases h
+    have hb : (fun (m' : StopIndex) (s' : RowState) (x : Item) => (Except.ok (m', o s' x, Signal.normal) : Res)) m s.step x
+        = .ok (m, o s.step x, .normal) := rfl
+    rw [iterRow_cons_normal _ m m s x xs out (o s.step x) .normal hs hb]
+    rw [ih]
+    rw [tableRows, List.map_cons, joinStr_cons]
+    generalize joinStr (List.map (cellHtml o) (tableRows s.step xs)) = rest
+    unfold cellHtml
+    generalize s.step = t
+    generalize ht : toString t.col = tc
+    generalize toString (t.row + 1) = tr
+    generalize o t x = ox
+    cases (t.colLast && !t.last)
+    · simp only [Bool.false_eq_true, if_false, String.append_assoc, String.append_empty]
+    · simp only [if_true, String.append_assoc]
+/-- with `cols = c ≥ 1` a row separator follows item `k` exactly when `k + 1` is a multiple of `c`
+and item `k` is not the last one: rows of `c` cells, a shorter last row, never an empty row -/
+theorem row_separator_iff (xs : List Item) (c k : Nat) (hc : 0 < c) (hk : k < xs.length) :
+    ∃ s, (tableRows (RowState.init xs.length c) xs)[k]? = some (xs[k], s) ∧
+      ((s.colLast && !s.last) = true ↔ ((k + 1) % c = 0 ∧ k + 1 ≠ xs.length)) ∧
+      ((k + 1) % c = 0 → s.row + 1 = ((k + 1) / c + 1 : Nat)) := by
+  obtain ⟨s, h, _, hrow, _, _, hcl, _, _, _, _, _, _, hl⟩ := tablerow_grid xs c k hc hk
+  refine ⟨s, h, ?_, ?_⟩
+  · simp only [Bool.and_eq_true, Bool.not_eq_true', hcl]
+    constructor
+    · rintro ⟨h1, h2⟩
+      refine ⟨h1, ?_⟩
+      intro h3
+      have := hl.mpr h3
+      simp_all
+    · rintro ⟨h1, h2⟩
+      refine ⟨h1, ?_⟩
+      cases hls : s.last with
+      | false => rfl
+      | true => exact absurd (hl.mp hls) h2
+  · intro hm
+    rw [hrow]
+    have hw : k % c + 1 = c := by
+      by_cases hw : k % c + 1 = c
+      · exact hw
+      · have := succ_div_mod_nowrap k c hc hw; omega
+    have := succ_div_mod_wrap k c hc hw
+    omega
 
 /-! ## `break`, `continue`, blocks -/
 
